@@ -24,6 +24,8 @@ pub enum Op {
     DropBar,
     /// run `wrap_iter` over k items to exhaustion
     Iter(u8),
+    /// the same iterator consumed by internal iteration (fold / count / for_each)
+    IterFold(u8),
     Reset,
     Println(u8),
     SuspendOut,
@@ -34,6 +36,8 @@ pub struct C04s {
     pub fin: usize,
     pub hz: Option<u8>,
     pub two_line: bool,
+    /// the template starts with "{bar:10} " (progress characters "#>-"): bar geometry under skipped draws (C13)
+    pub bar: bool,
 }
 
 const FINS: [&str; 5] = ["AndLeave", "AndClear", "WithMessage", "Abandon", "AbandonWithMessage"];
@@ -75,11 +79,19 @@ impl Rf {
             _ => self.msg = "abd".into(),
         }
     }
-    fn rows(&self, two: bool, w: usize) -> Vec<String> {
+    fn rows(&self, two: bool, w: usize, bar: bool) -> Vec<String> {
         if self.finished && self.hidden {
             return vec![];
         }
-        let mut lines = vec![format!("{}/{} {}", self.pos, self.len, self.msg).trim_end().to_string()];
+        // 10 cells: floor(10*pos/len) filled, one head cell when neither empty nor full (exact for lengths 5 and 9)
+        let cells = if !bar {
+            String::new()
+        } else {
+            let filled = if self.len == 0 || self.pos >= self.len { 10 } else { (10 * self.pos / self.len) as usize };
+            let head = usize::from(self.pos > 0 && filled < 10);
+            format!("{}{}{} ", "#".repeat(filled), ">".repeat(head), "-".repeat(10 - filled - head))
+        };
+        let mut lines = vec![format!("{cells}{}/{} {}", self.pos, self.len, self.msg).trim_end().to_string()];
         if two {
             lines.push(format!("+{}", self.pos));
         }
@@ -89,7 +101,7 @@ impl Rf {
 
 impl C04s {
     fn config(&self) -> String {
-        format!("standalone bar hz={:?} on_finish={} two_line={}", self.hz, FINS[self.fin], self.two_line)
+        format!("standalone bar hz={:?} on_finish={} two_line={}{}", self.hz, FINS[self.fin], self.two_line, if self.bar { " with {bar:10}" } else { "" })
     }
 }
 
@@ -100,7 +112,7 @@ impl Hist for C04s {
         if prefix.contains(&Op::DropBar) {
             return vec![];
         }
-        vec![Op::Burn, Op::Idle, Op::Tick, Op::Inc, Op::Msg(0), Op::Msg(1), Op::SetLen, Op::Finish, Op::FinishMsg, Op::FinishClear, Op::Abandon, Op::AbandonMsg, Op::FinishUsingStyle, Op::DropBar, Op::Iter(0), Op::Iter(1), Op::Iter(3), Op::Reset, Op::Println(0), Op::Println(1), Op::SuspendOut, Op::SuspendEmpty]
+        vec![Op::Burn, Op::Idle, Op::Tick, Op::Inc, Op::Msg(0), Op::Msg(1), Op::SetLen, Op::Finish, Op::FinishMsg, Op::FinishClear, Op::Abandon, Op::AbandonMsg, Op::FinishUsingStyle, Op::DropBar, Op::Iter(0), Op::Iter(1), Op::Iter(3), Op::IterFold(0), Op::IterFold(3), Op::Reset, Op::Println(0), Op::Println(1), Op::SuspendOut, Op::SuspendEmpty]
     }
 
     fn run(&self, hist: &[Op], stats: &mut Stats) -> Verdict {
@@ -111,8 +123,8 @@ impl Hist for C04s {
             None => ProgressDrawTarget::term_like(spy.boxed()),
             Some(hz) => ProgressDrawTarget::term_like_with_hz(spy.boxed(), hz),
         };
-        let tpl = if self.two_line { "{pos}/{len} {msg}\n+{pos}" } else { "{pos}/{len} {msg}" };
-        let mut pb = Some(ProgressBar::with_draw_target(Some(5), target).with_style(ProgressStyle::with_template(tpl).unwrap()).with_finish(fin(self.fin)));
+        let tpl = format!("{}{}", if self.bar { "{bar:10} " } else { "" }, if self.two_line { "{pos}/{len} {msg}\n+{pos}" } else { "{pos}/{len} {msg}" });
+        let mut pb = Some(ProgressBar::with_draw_target(Some(5), target).with_style(ProgressStyle::with_template(&tpl).unwrap().progress_chars("#>-")).with_finish(fin(self.fin)));
         let mut rf = Rf { pos: 0, len: 5, msg: String::new(), finished: false, hidden: false };
         let shown: Vec<String> = hist.iter().map(|o| format!("{:?}", o)).collect();
         let mut must_paint = false;
@@ -154,6 +166,14 @@ impl Hist for C04s {
                     Op::Iter(k) => {
                         for _ in b.wrap_iter(0..*k) {
                             clock::advance_ms(2);
+                        }
+                    }
+                    Op::IterFold(k) => {
+                        let it = b.wrap_iter(0..*k);
+                        if *k == 0 {
+                            let _ = it.count();
+                        } else {
+                            it.for_each(|_| clock::advance_ms(2));
                         }
                     }
                     Op::Reset => b.reset(),
@@ -217,7 +237,7 @@ impl Hist for C04s {
                         must_paint = true;
                     }
                 }
-                Op::Iter(k) => {
+                Op::Iter(k) | Op::IterFold(k) => {
                     rf.pos += *k as u64;
                     if !rf.finished {
                         rf.apply_fin(self.fin);
@@ -244,7 +264,7 @@ impl Hist for C04s {
             }
             if spy.flushes() > flushes_at_op {
                 // a frame was completed during this operation: it shows the state as of now
-                frame_shown = rf.rows(self.two_line, w);
+                frame_shown = rf.rows(self.two_line, w, self.bar);
             }
         }
         let doc = spy.doc();
@@ -261,7 +281,7 @@ impl Hist for C04s {
                 return bad("final-state: finishing/dropping/exhausting the iterator did not paint a frame", format!("document {:?}", doc));
             }
             let mut want = logs.clone();
-            want.extend(rf.rows(self.two_line, w));
+            want.extend(rf.rows(self.two_line, w, self.bar));
             while want.last().map_or(false, |s| s.is_empty()) {
                 want.pop();
             }
@@ -308,11 +328,24 @@ pub fn configs(tier: Tier) -> Vec<(C04s, usize)> {
     let mut v = Vec::new();
     let d = if tier == Tier::Quick { 3 } else { 4 };
     for f in 0..5 {
-        v.push((C04s { fin: f, hz: Some(1), two_line: f % 2 == 1 }, d));
+        v.push((C04s { fin: f, hz: Some(1), two_line: f % 2 == 1, bar: false }, d));
     }
-    v.push((C04s { fin: 0, hz: None, two_line: true }, d));
-    v.push((C04s { fin: 2, hz: Some(255), two_line: false }, d));
+    v.push((C04s { fin: 0, hz: None, two_line: true, bar: false }, d));
+    v.push((C04s { fin: 2, hz: Some(255), two_line: false, bar: false }, d));
     v
+}
+
+/// The same engine with a {bar:10} in front: the cells painted after skipped draws follow the current
+/// position and length (used by C13).
+pub fn bar_configs(tier: Tier) -> Vec<(C04s, usize)> {
+    let d = if tier == Tier::Quick { 3 } else { 4 };
+    vec![(C04s { fin: 0, hz: Some(1), two_line: false, bar: true }, d + 1), (C04s { fin: 3, hz: None, two_line: false, bar: true }, d)]
+}
+
+pub fn run_bar(tier: Tier, shard: Shard, stats: &mut Stats) {
+    for (cfg, depth) in bar_configs(tier) {
+        Dfs::new(&cfg, depth, shard, 1).explore(stats);
+    }
 }
 
 pub fn run(tier: Tier, shard: Shard, stats: &mut Stats) {
@@ -323,9 +356,9 @@ pub fn run(tier: Tier, shard: Shard, stats: &mut Stats) {
 
 pub fn replay(v: &serde_json::Value) -> Option<i32> {
     let hist: Vec<String> = v["history"].as_array().map(|a| a.iter().map(|s| s.as_str().unwrap_or("").to_string()).collect()).unwrap_or_default();
-    for (cfg, _) in configs(Tier::Thorough) {
+    for (cfg, _) in configs(Tier::Thorough).into_iter().chain(bar_configs(Tier::Thorough)) {
         if cfg.config() == v["config"].as_str().unwrap_or("") {
-            return Some(crate::replay_hist(&cfg, &hist, "C04"));
+            return Some(crate::replay_hist(&cfg, &hist, if cfg.bar { "C13" } else { "C04" }));
         }
     }
     None
